@@ -97,7 +97,7 @@ func reversalCase(r *gen.Rand, i int) (op, impl, class string) {
 			f.Batches[k] = raw
 		}
 	}
-	date := time.Date(r.Range(1990, 2068), time.Month(r.Range(1, 12)), r.Range(1, 28), r.Intn(24), r.Intn(60), 0, 0, time.UTC)
+	date := time.Date(r.Range(1990, 2068), time.Month(r.Range(1, 12)), r.Range(1, 28), r.Intn(24), r.Intn(60), 0, 0, []*time.Location{time.UTC, time.FixedZone("w", -8*3600), time.FixedZone("e", 11*3600)}[r.Intn(3)])
 
 	var parts []string
 	odd := false // some code is mapped outside the standard codes (53 -> 58, 54 -> 59)
